@@ -108,7 +108,7 @@ def build(case):
         cube = cube.rebin(tuple(case["arg"]))
     elif case["post"] in ("intslice", "intslice_rebin"):
         a, i = case["arg"][:2]
-        cube = cube[tuple(i if k == a else slice(None) for k in range(nd))]
+        cube = cube[Q.np_ints(case["key"], tuple(i if k == a else slice(None) for k in range(nd)))]      # (numpy integer in every fourth case)
         if case["post"] == "intslice_rebin":
             cube = cube.rebin(tuple(case["arg"][2]))
     return cube
